@@ -220,7 +220,16 @@ func checkMain(args []string) int {
 		}
 		fn := p.Harness(r.Harness)
 		if fn == nil {
-			engineErrors = append(engineErrors, "harness not found: "+r.Harness)
+			msg := "harness not found: " + r.Harness
+			if len(p.Dropped) > 0 {
+				var ds []string
+				for f, e := range p.Dropped {
+					ds = append(ds, f+": "+e)
+				}
+				sort.Strings(ds)
+				msg = "harness " + r.Harness + " cannot run: its file does not compile against the current tree (an internal API it uses changed): " + strings.Join(ds, "; ")
+			}
+			engineErrors = append(engineErrors, msg)
 			continue
 		}
 		o := sym.DefaultOptions()
@@ -422,11 +431,10 @@ func nativeReplay(r Run, replayPath string, p *sym.Program) (bool, string) {
 	files, _ := filepath.Glob(filepath.Join(verifDir, "harness", r.Pkg, "*.go"))
 	for _, f := range files {
 		base := filepath.Base(f)
-		if strings.HasSuffix(base, "_test.go") {
-			ov[filepath.Join(repoDir, r.Pkg, "zz_verif_"+base)] = f
-		} else {
-			ov[filepath.Join(repoDir, r.Pkg, "zz_verif_"+base)] = f
+		if _, out := p.Dropped["zz_verif_"+base]; out {
+			continue
 		}
+		ov[filepath.Join(repoDir, r.Pkg, "zz_verif_"+base)] = f
 	}
 	// generated test driver
 	var sb strings.Builder
